@@ -775,15 +775,9 @@ pub struct C16;
 
 const IR_DIR: &str = "/repo/trustfall_core/test_data/tests/valid_queries";
 
-/// F-28 witness: prints as `1.947700395895162e-169`, which serde_json parses back as
-/// 1.9477003958951618e-169 (one ulp below).
+/// F-28 witness (fixed by enabling serde_json's `float_roundtrip`): prints as
+/// `1.947700395895162e-169`, which serde_json without that feature parsed back one ulp below.
 const F28_WITNESS_BITS: u64 = 0x1ce7_8591_aab1_887a;
-
-/// Does this float survive serde_json's own print → parse (checked on a bare f64, no trustfall code)?
-fn json_exact(f: f64) -> bool {
-    let s = serde_json::to_string(&f).unwrap();
-    matches!(serde_json::from_str::<f64>(&s), Ok(g) if g.to_bits() == f.to_bits())
-}
 
 fn random_finite(rng: &mut Rng) -> f64 {
     loop {
@@ -910,7 +904,7 @@ impl Prop for C16 {
         "C16"
     }
     fn rule(&self) -> &'static str {
-        "Types: (ty-roundtrip t) for every nullability combination over base names Int, String, Float, Boolean, Vertex plus names that need escaping in JSON/RON (quote, backslash, non-ASCII, empty) for 0..3 list levels (0..4 thorough), a sparse stream at 28-30 levels, 31 levels (panic), and a few names for which the text is ambiguous (starting with `[` / ending with `!`: tagged ambiguous-name, correspondence only, exempt from the oracle); the implementation's answer combines Display→Type::parse, serde_json and ron (they must agree). Values: (tv-roundtrip v) = FieldValue → TransparentValue → serde_json text → TransparentValue → FieldValue, and (fv-serde v) = tagged FieldValue through serde_json and through ron, over every scalar boundary partition (both integer representations incl. 2^63 boundaries, boundary floats incl. ±0, subnormals, f64::MAX, 2^63, strings needing escapes), enum leaves, nested lists, and seeded random values to nesting depth 4 whose floats are boundary floats or random finite floats that survive serde_json's own f64 print/parse; a dedicated stream (tv-roundtrip-lossy / fv-serde-lossy, answers with float leaves masked) carries the F-28 witness and random finite floats that do NOT survive serde_json's own print/parse. A value case is non-trivial (nt:…) when it contains a list, a float, an unsigned integer or an enum — i.e. anything but a bare signed integer/string/bool/null. Compiled queries: (ir-roundtrip file) for every /repo/trustfall_core/test_data/tests/valid_queries/*.ir.ron: IRQuery → RON and → JSON → back, compared with ==; this stream is IMPLEMENTATION-ONLY EXPLORATION of the derived serde impls (the model's answer is the constant `ok`). ORACLE: round-trip result == original, and for the tagged routes the identical variant."
+        "Types: (ty-roundtrip t) for every nullability combination over base names Int, String, Float, Boolean, Vertex plus names that need escaping in JSON/RON (quote, backslash, non-ASCII, empty) for 0..3 list levels (0..4 thorough), a sparse stream at 28-30 levels, 31 levels (panic), and a few names for which the text is ambiguous (starting with `[` / ending with `!`: tagged ambiguous-name, correspondence only, exempt from the oracle); the implementation's answer combines Display→Type::parse, serde_json and ron (they must agree). Values: (tv-roundtrip v) = FieldValue → TransparentValue → serde_json text → TransparentValue → FieldValue, and (fv-serde v) = tagged FieldValue through serde_json and through ron, over every scalar boundary partition (both integer representations incl. 2^63 boundaries, boundary floats incl. ±0, subnormals, f64::MAX, 2^63, strings needing escapes), enum leaves, nested lists, and seeded random values to nesting depth 4 whose floats are boundary floats or uniformly random finite bit patterns; a dedicated stream carries the historical F-28 witness (0x1ce78591aab1887a) and further random finite floats at three nestings — all float leaves must come back bit-exact (answers render the exact float key; nothing is masked or filtered). A value case is non-trivial (nt:…) when it contains a list, a float, an unsigned integer or an enum — i.e. anything but a bare signed integer/string/bool/null. Compiled queries: (ir-roundtrip file) for every /repo/trustfall_core/test_data/tests/valid_queries/*.ir.ron: IRQuery → RON and → JSON → back, compared with ==; this stream is IMPLEMENTATION-ONLY EXPLORATION of the derived serde impls (the model's answer is the constant `ok`). ORACLE: round-trip result == original, and for the tagged routes the identical variant."
     }
     fn generate(&self, tier: Tier, rng: &mut Rng) -> Vec<Case> {
         let max_depth = if tier == Tier::Quick { 3 } else { 4 };
@@ -948,17 +942,10 @@ impl Prop for C16 {
             .filter_map(|v| if let FieldValue::Float64(f) = v { Some(*f) } else { None })
             .collect();
         pool.extend([1e15, 1e16, 1e21, 1e-7, 123456.789, -2.5e-3, 4.9e-324, 9007199254740993.0, 18446744073709551616.0, 0.1, 0.2, 0.30000000000000004]);
-        pool.retain(|f| json_exact(*f));
+        // any finite float: boundary pool or uniformly random bits (F-28 is fixed: every finite f64
+        // must survive JSON exactly, so nothing is filtered)
         let exact_float = |rng: &mut Rng| -> f64 {
-            if rng.chance(1, 2) {
-                return pool[rng.below(pool.len())];
-            }
-            loop {
-                let f = random_finite(rng);
-                if json_exact(f) {
-                    return f;
-                }
-            }
+            if rng.chance(1, 2) { pool[rng.below(pool.len())] } else { random_finite(rng) }
         };
         let mut values = scalar_pool();
         values.extend(fixed_values());
@@ -1001,23 +988,21 @@ impl Prop for C16 {
             out.push(Case::new(Sexp::call("tv-roundtrip", vec![value_to_sexp(v)]), &tags));
             out.push(Case::new(Sexp::call("fv-serde", vec![value_to_sexp(v)]), &tags));
         }
-        // ---- dedicated F-28 stream: floats that do not survive serde_json's own print/parse
-        let mut lossy = vec![f64::from_bits(F28_WITNESS_BITS)];
-        let n_lossy = if tier == Tier::Quick { 40 } else { 400 };
-        while lossy.len() < n_lossy {
-            let f = random_finite(rng);
-            if !json_exact(f) {
-                lossy.push(f);
-            }
+        // ---- dedicated float stream (regression guard for F-28): the historical witness and random
+        // finite floats, exact answers, at several nestings
+        let mut hard = vec![f64::from_bits(F28_WITNESS_BITS)];
+        let n_hard = if tier == Tier::Quick { 200 } else { 2000 };
+        while hard.len() < n_hard {
+            hard.push(random_finite(rng));
         }
-        for (i, f) in lossy.iter().enumerate() {
+        for (i, f) in hard.iter().enumerate() {
             let v = match i % 3 {
                 0 => FieldValue::Float64(*f),
                 1 => l(vec![FieldValue::Int64(1), FieldValue::Float64(*f)]),
                 _ => l(vec![l(vec![FieldValue::Float64(*f), FieldValue::Null]), FieldValue::from("a")]),
             };
-            out.push(Case::new(Sexp::call("tv-roundtrip-lossy", vec![value_to_sexp(&v)]), &["float-json-inexact", "nt:float"]));
-            out.push(Case::new(Sexp::call("fv-serde-lossy", vec![value_to_sexp(&v)]), &["float-json-inexact", "nt:float"]));
+            out.push(Case::new(Sexp::call("tv-roundtrip", vec![value_to_sexp(&v)]), &["float-random-bits", "nt:float"]));
+            out.push(Case::new(Sexp::call("fv-serde", vec![value_to_sexp(&v)]), &["float-random-bits", "nt:float"]));
         }
         // ---- compiled queries (implementation-only exploration)
         let mut files: Vec<String> = std::fs::read_dir(IR_DIR)
@@ -1174,7 +1159,7 @@ impl Prop for C16 {
             "untagged_value_roundtrips": count("(tv-roundtrip"),
             "tagged_value_roundtrips_each_json_and_ron": count("(fv-serde"),
             "compiled_queries_roundtripped_each_ron_and_json": count("(ir-roundtrip"),
-            "float_json_inexact_stream": evaluated.iter().filter(|e| e.tags.iter().any(|t| t == "float-json-inexact")).count(),
+            "float_random_bits_stream": evaluated.iter().filter(|e| e.tags.iter().any(|t| t == "float-random-bits")).count(),
         })
     }
 }
